@@ -277,3 +277,49 @@ package expr
 //@   ensures lerr == nil && len(l) == 1 && typeOfOk(l[0]) && isT && implements(l[0], fhir.Base) && choiceOfS(l[0]) == nil ==> err == nil && len(res) == 1 && res[0] == l[0]
 //@   ensures lerr == nil && len(l) == 1 && typeOfOk(l[0]) && isT && implements(l[0], fhir.Base) && choiceOfS(l[0]) != nil ==> err == nil && len(res) == 1 && res[0] == choiceOfS(l[0])
 //@   assigns nothing
+//
+// ---- C07: `&` alone treats an empty operand as the empty string ---------------------------------
+//@ func (e *ConcatExpression) Evaluate(ctx, input) (res, err)
+//@   requires e != nil && ctx != nil && e.Left != nil && e.Right != nil
+//@   let K = ctx.ExternalConstants
+//@   let N = ctx.Now
+//@   let l = evalRes(e.Left, K, N, input)
+//@   let r = evalRes(e.Right, K, N, input)
+//@   let lerr = evalErr(e.Left, K, N, input)
+//@   let rerr = evalErr(e.Right, K, N, input)
+//@   let lok = len(l) == 0 || (len(l) == 1 && fromOk(l[0]) && isStringV(fromS(l[0])))
+//@   let rok = len(r) == 0 || (len(r) == 1 && fromOk(r[0]) && isStringV(fromS(r[0])))
+//@   let ls = ite(len(l) == 0, "", unbox(fromS(l[0]), system.String))
+//@   let rs = ite(len(r) == 0, "", unbox(fromS(r[0]), system.String))
+//@   ensures lerr != nil || rerr != nil ==> err != nil
+//@   ensures lerr == nil && rerr == nil && (len(l) > 1 || len(r) > 1) ==> is(err, ErrNotSingleton)
+//@   ensures lerr == nil && rerr == nil && lok && rok ==> err == nil && len(res) == 1 && res[0] == box(system.String(ls + rs))
+//@   assigns nothing
+//
+// ---- the remaining node kinds (C02/C03/C07) -----------------------------------------------------------
+//@ func (e *IdentityExpression) Evaluate(ctx, input) (res, err)
+//@   ensures err == nil && res == input
+//@   assigns nothing
+//
+//@ func (e *LiteralExpression) Evaluate(ctx, input) (res, err)
+//@   requires e != nil
+//@   ensures err == nil
+//@   ensures e.Literal != nil ==> len(res) == 1 && res[0] == e.Literal
+//@   ensures e.Literal == nil ==> len(res) == 0
+//@   assigns nothing
+//
+// a path is the left fold of its steps: each step evaluates on the previous step's result,
+// the first error stops the evaluation
+//@ func (s *ExpressionSequence) Evaluate(ctx, input) (res, err)
+//@   requires s != nil && ctx != nil
+//@   requires forall k int :: 0 <= k && k < len(s.Expressions) ==> s.Expressions[k] != nil
+//@   let K = ctx.ExternalConstants
+//@   let N = ctx.Now
+//@   let es = s.Expressions
+//@   ensures (err == nil) == (forall k int :: 0 <= k && k < len(es) ==> evalErr(es[k], K, N, seqRes(es, K, N, input, k)) == nil)
+//@   ensures err == nil ==> res == seqRes(es, K, N, input, len(es))
+//@   loop 1 (i):
+//@     invariant 0 <= i && i <= len(es)
+//@     invariant output == seqRes(es, K, N, input, i)
+//@     invariant forall k int :: 0 <= k && k < i ==> evalErr(es[k], K, N, seqRes(es, K, N, input, k)) == nil
+//@   assigns ctx.LastResult, ctx.BeforeLastResult
